@@ -2,7 +2,18 @@
 from .scopegen import gen_scope_ops
 from .binstream_gen import gen_bs
 
-THEOREMS = []
+THEOREMS = [
+    "BSVerif.Props.C10.init_refines",
+    "BSVerif.Props.C10.isEnd_refines",
+    "BSVerif.Props.C10.peekByte_refines",
+    "BSVerif.Props.C10.readByte_refines",
+    "BSVerif.Props.C10.gotoNextByte_refines",
+    "BSVerif.Props.C10.readSolidBlock_refines",
+    "BSVerif.Props.C10.readByChunks_refines",
+    "BSVerif.Props.C10.setPosition_refines",
+    "BSVerif.Props.C10.history_refines",
+    "BSVerif.BinStream.readNextChunk_spec",
+]
 RULE = ("CBinaryStreamReader operation histories (peek/next/readByte/solid/chunks/setPosition/getPosition/isEnd) on byte strings of "
         "length 0..1000 aimed at the 256-byte cache boundary, judged against the abstract cursor; MsgPack scope histories run from "
         "memory AND from a stream on the same documents (paired ops must give identical answers); non-trivial = history touching "
